@@ -16,6 +16,16 @@ namespace Heap
   unfold log; split
   · split <;> rfl
   · rfl
+@[simp] theorem log_base (h : Heap) (e) : (h.log e).base = h.base := by
+  unfold log; split
+  · split <;> rfl
+  · rfl
+@[simp] theorem log_snap (h : Heap) (e) : (h.log e).snap = h.snap := by
+  unfold log; split
+  · split <;> rfl
+  · rfl
+@[simp] theorem flag_base (h : Heap) (b) : (h.flag b).base = h.base := by unfold flag; split <;> rfl
+@[simp] theorem flag_snap (h : Heap) (b) : (h.flag b).snap = h.snap := by unfold flag; split <;> rfl
 @[simp] theorem flag_live (h : Heap) (b) : (h.flag b).live = h.live := by unfold flag; split <;> rfl
 @[simp] theorem flag_next (h : Heap) (b) : (h.flag b).next = h.next := by unfold flag; split <;> rfl
 
@@ -27,10 +37,22 @@ namespace Heap
   unfold touch; split
   · split <;> simp
   · simp
+@[simp] theorem touch_base (h : Heap) (id e) : (h.touch id e).base = h.base := by
+  unfold touch; split
+  · split <;> simp
+  · simp
+@[simp] theorem touch_snap (h : Heap) (id e) : (h.touch id e).snap = h.snap := by
+  unfold touch; split
+  · split <;> simp
+  · simp
 theorem touch_bad (h : Heap) (id e) (hl : h.live id = true) : (h.touch id e).bad = h.bad := by
   unfold touch; rw [if_pos hl]; split <;> simp
 
 @[simp] theorem free_next (h : Heap) (id) : (h.free id).next = h.next := by
+  unfold free; split <;> simp
+@[simp] theorem free_base (h : Heap) (id) : (h.free id).base = h.base := by
+  unfold free; split <;> simp
+@[simp] theorem free_snap (h : Heap) (id) : (h.free id).snap = h.snap := by
   unfold free; split <;> simp
 theorem free_bad (h : Heap) (id) (hl : h.live id = true) : (h.free id).bad = h.bad := by
   unfold free; rw [if_pos hl]; simp
@@ -47,6 +69,8 @@ theorem free_live_le (h : Heap) (id x) (hx : (h.free id).live x = true) : h.live
 @[simp] theorem malloc_id (h : Heap) (n) : (h.malloc n).2 = h.next := rfl
 @[simp] theorem malloc_next (h : Heap) (n) : (h.malloc n).1.next = h.next + 1 := by simp [malloc]
 @[simp] theorem malloc_bad (h : Heap) (n) : (h.malloc n).1.bad = h.bad := by simp [malloc]
+@[simp] theorem malloc_base (h : Heap) (n) : (h.malloc n).1.base = h.base := by simp [malloc]
+@[simp] theorem malloc_snap (h : Heap) (n) : (h.malloc n).1.snap = h.snap := by simp [malloc]
 @[simp] theorem malloc_live (h : Heap) (n) : (h.malloc n).1.live = fun x => x == h.next || h.live x := by simp [malloc]
 end Heap
 
@@ -88,6 +112,10 @@ variable (e : Env) (src : Option Nat) (len : Nat)
   unfold send; dsimp only; (repeat' split) <;> simp
 @[simp] theorem send_next : (send e o src len).1.heap.next = o.heap.next := by
   unfold send; dsimp only; (repeat' split) <;> simp
+@[simp] theorem send_base : (send e o src len).1.heap.base = o.heap.base := by
+  unfold send; dsimp only; (repeat' split) <;> simp
+@[simp] theorem send_snap : (send e o src len).1.heap.snap = o.heap.snap := by
+  unfold send; dsimp only; (repeat' split) <;> simp
 theorem send_bad (hl : ∀ id, src = some id → o.heap.live id = true) :
     (send e o src len).1.heap.bad = o.heap.bad := by
   unfold send; dsimp only; repeat' split
@@ -108,10 +136,15 @@ structure Inv (o : O) : Prop where
   b1 : ∀ id n, o.buffer = some (id, n) → o.heap.live id = true
   b2 : ∀ id n, o.bodyBuffer = some (id, n) → o.heap.live id = true
   ne : ∀ a m b n, o.buffer = some (a, m) → o.bodyBuffer = some (b, n) → a ≠ b
+  own1 : ∀ id n, o.buffer = some (id, n) → o.heap.base ≤ id
+  own2 : ∀ id n, o.bodyBuffer = some (id, n) → o.heap.base ≤ id
+  frame : ∀ x, x < o.heap.base → o.heap.live x = o.heap.snap x
+  basele : o.heap.base ≤ o.heap.next
 
 /-- `id` is a live buffer held in a local variable: no owner field refers to it -/
 structure Held (o : O) (id : Nat) : Prop where
   live : o.heap.live id = true
+  own : o.heap.base ≤ id
   nb : ∀ m, o.buffer ≠ some (id, m)
   nbb : ∀ n, o.bodyBuffer ≠ some (id, n)
 
@@ -124,7 +157,7 @@ macro "own_auto" : tactic => `(tactic|
 theorem inv_init : Inv {} := by constructor <;> simp
 
 theorem encodeHead_inv (e : Env) (o : O) (h : Inv o) : Inv (encodeHead e o) := by
-  obtain ⟨h1, h2, h3, h4, h5⟩ := h
+  obtain ⟨h1, h2, h3, h4, h5, h6, h7, h8, h9⟩ := h
   unfold encodeHead
   dsimp only
   split
@@ -133,8 +166,8 @@ theorem encodeHead_inv (e : Env) (o : O) (h : Inv o) : Inv (encodeHead e o) := b
 
 theorem chunkTail_inv (e : Env) (o : O) (id n0 l : Nat) (h : Inv o) (hh : Held o id) :
     Inv (chunkTail e o id n0 l).1 := by
-  obtain ⟨h1, h2, h3, h4, h5⟩ := h
-  obtain ⟨g1, g2, g3⟩ := hh
+  obtain ⟨h1, h2, h3, h4, h5, h6, h7, h8, h9⟩ := h
+  obtain ⟨g1, g0, g2, g3⟩ := hh
   unfold chunkTail
   dsimp only
   (repeat' split) <;> own_auto
@@ -144,7 +177,7 @@ theorem writeChunk_inv (e : Env) (o : O) (l : Nat) (h : Inv o) : Inv (writeChunk
   unfold writeChunk
   dsimp only
   generalize encodeHead e o = o1 at *
-  obtain ⟨h1, h2, h3, h4, h5⟩ := h'
+  obtain ⟨h1, h2, h3, h4, h5, h6, h7, h8, h9⟩ := h'
   split
   · split
     · own_auto
@@ -161,20 +194,20 @@ theorem takeHead_inv (e : Env) (o : O) (l cl : Nat) (h : Inv o) : Inv (takeHead 
   · have h' := encodeHead_inv e o h
     dsimp only
     generalize encodeHead e o = o1 at *
-    obtain ⟨h1, h2, h3, h4, h5⟩ := h'
+    obtain ⟨h1, h2, h3, h4, h5, h6, h7, h8, h9⟩ := h'
     (repeat' split) <;> own_auto
   · exact h
 
 theorem appendTail_inv (e : Env) (o : O) (id bl l cl : Nat) (h : Inv o)
-    (hl : o.heap.live id = true) (hnb : ∀ m, o.buffer ≠ some (id, m)) :
+    (hl : o.heap.live id = true) (hown : o.heap.base ≤ id) (hnb : ∀ m, o.buffer ≠ some (id, m)) :
     Inv (appendTail e o id bl l cl).1 := by
-  obtain ⟨h1, h2, h3, h4, h5⟩ := h
+  obtain ⟨h1, h2, h3, h4, h5, h6, h7, h8, h9⟩ := h
   unfold appendTail
   dsimp only
   (repeat' split) <;> own_auto
 
 theorem sendDirect_inv (e : Env) (o : O) (l : Nat) (h : Inv o) : Inv (sendDirect e o l).1 := by
-  obtain ⟨h1, h2, h3, h4, h5⟩ := h
+  obtain ⟨h1, h2, h3, h4, h5, h6, h7, h8, h9⟩ := h
   unfold sendDirect
   dsimp only
   (repeat' split) <;> own_auto
@@ -189,7 +222,7 @@ macro "own_side" : tactic => `(tactic|
 theorem sendCached_inv (e : Env) (o : O) (id bl : Nat) (h : Inv o) (hb : o.bodyBuffer = some (id, bl)) :
     Inv (sendCached e o id bl).1 ∧
       ((sendCached e o id bl).2 = true → ∃ n, (sendCached e o id bl).1.bodyBuffer = some (id, n)) := by
-  obtain ⟨h1, h2, h3, h4, h5⟩ := h
+  obtain ⟨h1, h2, h3, h4, h5, h6, h7, h8, h9⟩ := h
   unfold sendCached
   dsimp only
   (repeat' split) <;> refine ⟨?_, ?_⟩ <;> first | own_auto | own_side
@@ -199,12 +232,13 @@ theorem appendBody_inv (e : Env) (o : O) (l cl : Nat) (h : Inv o) : Inv (appendB
   split
   · split
     · apply sendDirect_inv
-      obtain ⟨h1, h2, h3, h4, h5⟩ := h
+      obtain ⟨h1, h2, h3, h4, h5, h6, h7, h8, h9⟩ := h
       own_auto
     · dsimp only
-      obtain ⟨h1, h2, h3, h4, h5⟩ := h
+      obtain ⟨h1, h2, h3, h4, h5, h6, h7, h8, h9⟩ := h
       apply appendTail_inv
       · own_auto
+      · own_side
       · own_side
       · own_side
   · rename_i id bl hb
@@ -216,7 +250,7 @@ theorem appendBody_inv (e : Env) (o : O) (l cl : Nat) (h : Inv o) : Inv (appendB
         exact hs.1
       · rename_i o2 hsc
         rw [hsc] at hs
-        obtain ⟨⟨h1, h2, h3, h4, h5⟩, hs2⟩ := hs
+        obtain ⟨⟨h1, h2, h3, h4, h5, h6, h7, h8, h9⟩, hs2⟩ := hs
         obtain ⟨n, hn⟩ := hs2 rfl
         dsimp only at hn
         split
@@ -226,9 +260,11 @@ theorem appendBody_inv (e : Env) (o : O) (l cl : Nat) (h : Inv o) : Inv (appendB
           · constructor <;> assumption
           · own_side
           · own_side
-    · obtain ⟨h1, h2, h3, h4, h5⟩ := h
+          · own_side
+    · obtain ⟨h1, h2, h3, h4, h5, h6, h7, h8, h9⟩ := h
       apply appendTail_inv
       · constructor <;> assumption
+      · own_side
       · own_side
       · own_side
 
@@ -256,14 +292,14 @@ theorem copyLoop_inv (e : Env) (f : Nat) (o : O) (rem w : Nat) (h : Inv o) : Inv
     split
     · exact h
     · have hs : Inv (send e o none (min rem 32768)).1 := by
-        obtain ⟨h1, h2, h3, h4, h5⟩ := h
+        obtain ⟨h1, h2, h3, h4, h5, h6, h7, h8, h9⟩ := h
         own_auto
       split
       · exact ih _ _ _ hs
       · exact hs
 
 theorem sendFile_inv (e : Env) (o : O) (h : Inv o) : Inv (sendFile e o).1 := by
-  obtain ⟨h1, h2, h3, h4, h5⟩ := h
+  obtain ⟨h1, h2, h3, h4, h5, h6, h7, h8, h9⟩ := h
   unfold sendFile
   dsimp only
   own_auto
@@ -277,7 +313,7 @@ theorem readFrom_inv (e : Env) (o : O) (k : RKind) (n : Nat) (h : Inv o) : Inv (
   · exact h'
   · rename_i id bl hb
     have hs : Inv ({ (send e o1 (some id) bl).1.free id with buffer := none } : O) := by
-      obtain ⟨h1, h2, h3, h4, h5⟩ := h'
+      obtain ⟨h1, h2, h3, h4, h5, h6, h7, h8, h9⟩ := h'
       own_auto
     split
     · exact hs
@@ -290,13 +326,13 @@ theorem readFrom_inv (e : Env) (o : O) (k : RKind) (n : Nat) (h : Inv o) : Inv (
           split <;> exact this
 
 theorem flushBuf_inv (e : Env) (o : O) (h : Inv o) : Inv (flushBuf e o) := by
-  obtain ⟨h1, h2, h3, h4, h5⟩ := h
+  obtain ⟨h1, h2, h3, h4, h5, h6, h7, h8, h9⟩ := h
   unfold flushBuf
   dsimp only
   (repeat' split) <;> own_auto
 
 theorem flushBodyBuf_inv (e : Env) (o : O) (h : Inv o) : Inv (flushBodyBuf e o) := by
-  obtain ⟨h1, h2, h3, h4, h5⟩ := h
+  obtain ⟨h1, h2, h3, h4, h5, h6, h7, h8, h9⟩ := h
   unfold flushBodyBuf
   dsimp only
   (repeat' split) <;> own_auto
@@ -311,7 +347,7 @@ theorem mergeBody_inv (e : Env) (o : O) (hid hl : Nat) (h : Inv o) (hb : o.buffe
   | none => exact h
   | some b =>
     obtain ⟨bid, bl⟩ := b
-    obtain ⟨h1, h2, h3, h4, h5⟩ := h
+    obtain ⟨h1, h2, h3, h4, h5, h6, h7, h8, h9⟩ := h
     have hne : hid ≠ bid := h5 _ _ _ _ hb hbb
     have hne' : bid ≠ hid := fun hc => hne hc.symm
     have l1 := h3 _ _ hb
@@ -320,13 +356,13 @@ theorem mergeBody_inv (e : Env) (o : O) (hid hl : Nat) (h : Inv o) (hb : o.buffe
     (repeat' split) <;> own_auto
 
 theorem sendFreeBuffer_inv (e : Env) (o : O) (h : Inv o) : Inv (sendFreeBuffer e o).1 := by
-  obtain ⟨h1, h2, h3, h4, h5⟩ := h
+  obtain ⟨h1, h2, h3, h4, h5, h6, h7, h8, h9⟩ := h
   unfold sendFreeBuffer
   dsimp only
   (repeat' split) <;> own_auto
 
 theorem sendFreeBody_inv (e : Env) (o : O) (h : Inv o) : Inv (sendFreeBody e o).1 := by
-  obtain ⟨h1, h2, h3, h4, h5⟩ := h
+  obtain ⟨h1, h2, h3, h4, h5, h6, h7, h8, h9⟩ := h
   unfold sendFreeBody
   dsimp only
   (repeat' split) <;> own_auto
@@ -349,32 +385,35 @@ theorem flushIdentity_inv (e : Env) (o : O) (h : Inv o) : Inv (flushIdentity e o
     · exact sendFreeBody_inv e _ hb
 
 theorem flushChunked_inv (e : Env) (o : O) (h : Inv o) : Inv (flushChunked e o).1 := by
-  obtain ⟨h1, h2, h3, h4, h5⟩ := h
+  obtain ⟨h1, h2, h3, h4, h5, h6, h7, h8, h9⟩ := h
   unfold flushChunked
   dsimp only
   (repeat' split) <;> own_auto
 
 theorem releaseBuf_inv (o : O) (h : Inv o) : Inv (releaseBuf o) := by
-  obtain ⟨h1, h2, h3, h4, h5⟩ := h
+  obtain ⟨h1, h2, h3, h4, h5, h6, h7, h8, h9⟩ := h
   unfold releaseBuf
   dsimp only
   (repeat' split) <;> own_auto
 
 theorem releaseBody_inv (o : O) (h : Inv o) : Inv (releaseBody o) := by
-  obtain ⟨h1, h2, h3, h4, h5⟩ := h
+  obtain ⟨h1, h2, h3, h4, h5, h6, h7, h8, h9⟩ := h
   unfold releaseBody
   dsimp only
   (repeat' split) <;> own_auto
 
 theorem release_inv (o : O) (h : Inv o) : Inv (release o) := releaseBody_inv _ (releaseBuf_inv o h)
 
-theorem finish_inv (e : Env) (o : O) (h : Inv o) : Inv (finish e o).1 := by
-  unfold finish
+theorem finishFlush_inv (e : Env) (o : O) (h : Inv o) : Inv (finishFlush e o).1 := by
+  unfold finishFlush
   dsimp only
-  apply release_inv
   split
   · exact flushChunked_inv e _ (encodeHead_inv e o h)
   · exact flushIdentity_inv e _ (encodeHead_inv e o h)
+
+theorem finish_inv (e : Env) (o : O) (h : Inv o) : Inv (finish e o).1 := by
+  unfold finish
+  exact release_inv _ (finishFlush_inv e o h)
 
 /-- after releaseResponse no owner field holds anything -/
 theorem release_empty (o : O) : (release o).buffer = none ∧ (release o).bodyBuffer = none := by
